@@ -35,6 +35,11 @@ func (s *timeoutCollector) add(timeout hotstuff.TimeoutMsg) ([]hotstuff.TimeoutM
 		return nil, false
 	}
 	timeoutList := slices.Clone(s.timeouts)
+	// only timeouts for the view of this message count toward, and become part of, its quorum
+	timeoutList = slices.DeleteFunc(timeoutList, func(t hotstuff.TimeoutMsg) bool { return t.View != timeout.View })
+	if len(timeoutList) < s.config.QuorumSize() {
+		return nil, false
+	}
 	// remove timeouts for this view from the slice, since we now have a quorum
 	// and we don't need to keep them around anymore.
 	s.timeouts = slices.DeleteFunc(s.timeouts, func(t hotstuff.TimeoutMsg) bool { return t.View == timeout.View })
